@@ -46,8 +46,6 @@ theorem exec_evalValuesRow_lit (m : Nat) (env : Env) (es : List Expr) (h : allLi
   simp only [exec_bind, exec_typeEnv]
   apply exec_mapM_lit _ _ _ _ es h <;> intro x s' <;> simp [evalExpr, exec_bind]
 
-@[simp] theorem exec_liftR_pure (a : α) (s : St) : (liftR (pure a : R α) : M α).exec s = (.ok a, s) := rfl
-
 theorem lastComponent_av : lastComponent "accounts_volumes" = "accounts_volumes" := by decide
 theorem lastComponent_excluded : lastComponent "excluded" = "excluded" := by decide
 
